@@ -2,7 +2,7 @@
 observed on the real scheduler must pass the model's input guard with the model's own delay tables."""
 from .. import common, sched_check, monitors
 
-KINDS = {'guard_input', 'tables', 'tables_anc', 'notwaiting', 'timemismatch', 'model_err:backwards', 'impl_err:internal:backwards'}
+KINDS = {'uncertified', 'guard_input', 'tables', 'tables_anc', 'notwaiting', 'timemismatch', 'model_err:backwards', 'impl_err:internal:backwards'}
 
 
 def nontrivial(case, run, val):
